@@ -240,7 +240,15 @@ class _Specializer(ast.NodeTransformer):
 
 
 def specialize(model: Model, func: FuncInfo, oracle: t.Callable[[ast.expr], t.Optional[bool]]) -> FuncInfo:
-    node = copy.deepcopy(func.node)
+    # (the root's ``_parent`` link leads to the class and the module: detach it while copying)
+    par = getattr(func.node, '_parent', None)
+    try:
+        if par is not None:
+            del func.node._parent     # type: ignore[union-attr]
+        node = copy.deepcopy(func.node)
+    finally:
+        if par is not None:
+            func.node._parent = par   # type: ignore[union-attr]
     node = _Specializer(oracle).visit(node)
     ast.fix_missing_locations(node)
     for p in ast.walk(node):
